@@ -17,7 +17,7 @@ PY = "/venv/bin/python"
 
 
 def replay_all(behaviours: List[List[Dict[str, Any]]], procs: int = 12, module: str = "harness.worker",
-               extra_env: Dict[str, str] = {}) -> List[Dict[str, Any]]:
+               extra_env: Dict[str, str] = {}, trace_dir: str = "") -> List[Dict[str, Any]]:
     if not behaviours:
         return []
     procs = max(1, min(procs, len(behaviours)))
@@ -34,7 +34,10 @@ def replay_all(behaviours: List[List[Dict[str, Any]]], procs: int = 12, module: 
     def one(k: int) -> List[Dict[str, Any]]:
         src = os.path.join(tmp, f"in{k}.json")
         dst = os.path.join(tmp, f"out{k}.json")
-        json.dump({"behaviours": chunks[k]}, open(src, "w"))
+        job = {"behaviours": chunks[k]}
+        if trace_dir:
+            job["trace_file"] = os.path.join(trace_dir, f"trace{k}.ndjson")
+        json.dump(job, open(src, "w"))
         p = subprocess.run([PY, "-m", module, src, dst], cwd=ROOT, env=env, capture_output=True, text=True)
         if p.returncode != 0 or not os.path.exists(dst):
             raise RuntimeError(f"replay worker {k} failed (rc={p.returncode}):\n{p.stderr[-3000:]}")
